@@ -14,7 +14,7 @@ import (
 // C20 — a truncated or xref-damaged file still gives up every complete object.
 
 func init() {
-	addRun("C20", "documents written by the real Writer without object streams (versions 1.2-2.0, human-readable or compact, xref table or xref stream, random object trees, streams with short and long bodies, direct and indirect /Length; bodies free of line-initial markers, not ending in CR/LF and without EOL+endstream); EVERY truncation offset 0..len and every single-byte and whole-range overwrite of the xref table lines / xref stream data / startxref value; SequentialScan must succeed when >=1 object is complete, list every complete object at its true offset not broken, Read must give the written value, listed incomplete objects must be Broken, MakeReader+Get must give the written values after xref damage. A case is one (document, cut) or (document, overwrite) pair; non-trivial when at least one object is complete; distinct by the damaged bytes.", runC20)
+	addRun("C20", "documents written by the real Writer without object streams, on non-seekable and seekable sinks (versions 1.2-2.0, human-readable or compact, xref table or xref stream, random object trees, streams with short and long bodies, direct and indirect /Length; bodies free of line-initial markers, not ending in CR/LF and without EOL+endstream); random small documents with EVERY truncation offset 0..len and every single-byte and whole-range overwrite, plus documents with 1/9/10/11/25/40 streams of >= 1 KiB whose /Length is an indirect object behind the stream (mixed with short streams and plain objects; bodies with endobj, endstream, object headers in mid-line, and — delimited only by /Length — EOL+endstream or a trailing EOL) cut at every object boundary +-2 and sampled interior offsets (all offsets in thorough), and every single-byte and whole-range overwrite of the xref table lines / xref stream data / startxref value; SequentialScan must succeed when >=1 object is complete, list every complete object at its true offset not broken, Read must give the written value, listed incomplete objects must be Broken, MakeReader+Get must give the written values after xref damage. A case is one (document, cut) or (document, overwrite) pair; non-trivial when at least one object is complete; distinct by the damaged bytes.", runC20)
 	addReplay("C20", "scan", replayC20)
 }
 
@@ -24,12 +24,60 @@ type hisSink struct{ bytes.Buffer }
 
 func (s *hisSink) Flush() error { return nil }
 
+// hisSeekSink is the same with Seek: the Writer then patches /Length into the
+// stream dictionary instead of writing an indirect length object.
+type hisSeekSink struct {
+	data []byte
+	pos  int
+}
+
+func (s *hisSeekSink) Write(p []byte) (int, error) {
+	if n := s.pos + len(p); n > len(s.data) {
+		s.data = append(s.data, make([]byte, n-len(s.data))...)
+	}
+	copy(s.data[s.pos:], p)
+	s.pos += len(p)
+	return len(p), nil
+}
+
+func (s *hisSeekSink) Seek(off int64, whence int) (int64, error) {
+	switch whence {
+	case io.SeekStart:
+		s.pos = int(off)
+	case io.SeekCurrent:
+		s.pos += int(off)
+	case io.SeekEnd:
+		s.pos = len(s.data) + int(off)
+	}
+	if s.pos < 0 || s.pos > len(s.data) {
+		return 0, fmt.Errorf("seek out of range")
+	}
+	return int64(s.pos), nil
+}
+
+func (s *hisSeekSink) Flush() error  { return nil }
+func (s *hisSeekSink) Len() int      { return len(s.data) }
+func (s *hisSeekSink) Bytes() []byte { return s.data }
+
+type hisDocSink interface {
+	io.Writer
+	Len() int
+	Bytes() []byte
+}
+
 type hisWritten struct {
 	ref    pdf.Reference
 	start  int // offset of "N G obj"
 	end    int // offset just after "endobj"
 	val    string
 	isXRef bool
+	// needs >= 0: a stream whose body cannot be delimited without its /Length (it contains
+	// EOL+endstream or ends in an EOL) and whose /Length is the indirect object objs[needs]:
+	// the stream counts as completely written only together with that object
+	needs int
+	// nasty: the body contains EOL+endstream or ends in an EOL; when such a stream is cut off,
+	// what is left may look like a complete (shorter) stream object
+	nasty bool
 }
 
 type hisDoc struct {
@@ -100,6 +148,10 @@ func hisStreamBody(r *Rand) []byte {
 	case 2:
 		n = 1020 + r.Intn(8)
 	}
+	return hisFillBody(r, n)
+}
+
+func hisFillBody(r *Rand, n int) []byte {
 	b := make([]byte, n)
 	mode := r.Intn(3)
 	for i := range b {
@@ -113,111 +165,294 @@ func hisStreamBody(r *Rand) []byte {
 		}
 	}
 	b = hisCleanBytes(b)
-	// no EOL directly before "endstream" inside, no trailing EOL (C04's recoverability conditions)
+	// no trailing EOL (C04's recoverability condition)
 	for len(b) > 0 && (b[len(b)-1] == '\n' || b[len(b)-1] == '\r') {
 		b[len(b)-1] = '.'
 	}
 	return b
 }
 
+// hisEmbed overwrites part of a clean body with keyword text.  Level 1: keywords that are
+// harmless for a scanner which respects line starts and EOL+endstream ("endobj", "endstream"
+// and object headers in the middle of a line).  Level 2 ("nasty"): an EOL directly followed by
+// "endstream" inside the body, or a body ending in an EOL — such a body can only be delimited
+// by its /Length.
+func hisEmbed(r *Rand, b []byte, level int) []byte {
+	put := func(text string) {
+		if len(b) < len(text)+4 {
+			return
+		}
+		p := 1 + r.Intn(len(b)-len(text)-2)
+		copy(b[p:], text)
+		// keep the byte before the text from being an EOL unless the text brings its own
+		if text[0] != '\n' && text[0] != '\r' && (b[p-1] == '\n' || b[p-1] == '\r') {
+			b[p-1] = ' '
+		}
+	}
+	for k := 1 + r.Intn(3); k > 0; k-- {
+		put(Pick(r, []string{" endobj ", " endstream ", "xendstream\n", " 901 0 obj ", " 902 0 obj endobj ", " stream\n", "(trailer)", " startxref 5 %%EOF "}))
+	}
+	sanitize := func() {
+		// overlapping texts must not produce a line-initial marker
+		for i := 0; i+1 < len(b); i++ {
+			if b[i] != '\n' && b[i] != '\r' {
+				continue
+			}
+			c := b[i+1]
+			if c >= '0' && c <= '9' {
+				b[i+1] = 'd'
+			}
+			for _, w := range []string{"xref", "trailer", "startxref", "%%EOF"} {
+				if bytes.HasPrefix(b[i+1:], []byte(w)) {
+					b[i+1] = '_'
+				}
+			}
+		}
+	}
+	sanitize()
+	if level >= 2 {
+		defer sanitize()
+		switch r.Intn(4) {
+		case 0:
+			put("\nendstream x ")
+		case 1:
+			put("\r\nendstream\n903 0 R ")
+		case 2:
+			put("\rendstream\rendobjx")
+		default:
+			put("\nendstream y")
+			b[len(b)-1] = Pick(r, []byte{'\n', '\r'})
+		}
+	}
+	return b
+}
+
+func hisBodyNeedsLength(b []byte) bool {
+	if len(b) > 0 && (b[len(b)-1] == '\n' || b[len(b)-1] == '\r') {
+		return true
+	}
+	return bytes.Contains(b, []byte("\nendstream")) || bytes.Contains(b, []byte("\rendstream"))
+}
+
+// document kinds: "r0"/"r1" random documents (as before, larger/smaller); "i<K>" K streams of
+// >= 1 KiB on a non-seekable sink (each gets /Length N 0 R and a length object behind it), mixed
+// with short streams and plain objects, bodies with embedded keywords; "i<K>s" the same on a
+// seekable sink (the Writer patches a direct /Length).
+func hisDocKinds(thorough bool) []string {
+	return []string{"i1", "i9", "i10", "i11", "i40", "i10s", "i40s", "i25"}
+}
+
 // hisWriteDoc writes a document with the real Writer and records where every
 // object went and what it was.
-func hisWriteDoc(r *Rand, small bool) (doc *hisDoc, err error) {
+func hisWriteDoc(r *Rand, kind string) (doc *hisDoc, err error) {
 	defer func() {
 		if p := recover(); p != nil {
 			err = fmt.Errorf("panic in Writer: %v", p)
 		}
 	}()
+	nLong := -1
+	seekable := false
+	if strings.HasPrefix(kind, "i") {
+		k := strings.TrimSuffix(kind[1:], "s")
+		nLong, _ = strconv.Atoi(k)
+		seekable = strings.HasSuffix(kind, "s")
+	}
+	small := kind == "r1" || kind == "1"
 	versions := []pdf.Version{pdf.V1_2, pdf.V1_4, pdf.V1_7, pdf.V2_0, pdf.V1_5}
 	v := Pick(r, versions)
 	opt := &pdf.WriterOptions{HumanReadable: r.Bool()}
+	if nLong >= 25 {
+		opt.HumanReadable = false
+	}
 	if v >= pdf.V2_0 || r.P(1, 3) {
 		// fixed by the seed (the Writer would draw it from crypto/rand otherwise)
 		opt.ID = [][]byte{r.Bytes(16), r.Bytes(16)}
 	}
-	sink := &hisSink{}
+	var sink hisDocSink
+	if seekable {
+		sink = &hisSeekSink{}
+	} else {
+		sink = &hisSink{}
+	}
 	w, err := pdf.NewWriter(sink, v, opt)
 	if err != nil {
 		return nil, err
 	}
 	doc = &hisDoc{}
-	known := map[int]string{} // offset of the header -> value written there
-	record := func(ref pdf.Reference, before int, val string) {
+	addPlain := func(ref pdf.Reference, before int, val string) {
 		data := sink.Bytes()
-		hdr := []byte(fmt.Sprintf("%d %d obj", ref.Number(), ref.Generation()))
-		i := bytes.Index(data[before:], hdr)
-		if i < 0 {
-			panic("his: object header not found in the Writer's output")
+		hdr := fmt.Sprintf("%d %d obj\n", ref.Number(), ref.Generation())
+		if !bytes.HasPrefix(data[before:], []byte(hdr)) {
+			panic("his: Put did not start the object where the sink ended")
 		}
-		known[before+i] = val
+		end := len(data)
+		for end > 0 && data[end-1] == '\n' {
+			end--
+		}
+		if !bytes.HasSuffix(data[:end], []byte("endobj")) {
+			panic("his: Put did not end the object with endobj")
+		}
+		doc.objs = append(doc.objs, hisWritten{ref: ref, start: before, end: end, val: val, needs: -1})
 	}
-	nObj := 2 + r.Intn(6)
-	if small {
-		nObj = 1 + r.Intn(3)
+	addStream := func(ref pdf.Reference, before int, val string, body []byte) {
+		data := sink.Bytes()
+		hdr := fmt.Sprintf("%d %d obj\n<<", ref.Number(), ref.Generation())
+		i := bytes.Index(data[before:], []byte(hdr))
+		if i != 0 {
+			panic("his: stream object does not start where the sink ended")
+		}
+		// the real terminator is the last one written by this call (bodies may contain the words)
+		t := bytes.LastIndex(data[before:], []byte("\nendstream\nendobj\n"))
+		if t < 0 {
+			panic("his: stream terminator not found")
+		}
+		end := before + t + len("\nendstream\nendobj")
+		rec := hisWritten{ref: ref, start: before, end: end, val: val, needs: -1, nasty: hisBodyNeedsLength(body)}
+		doc.objs = append(doc.objs, rec)
+		// an indirect length object follows directly
+		rest := data[end:]
+		trimmed := bytes.TrimLeft(rest, "\n")
+		if len(trimmed) > 0 {
+			var ln, lg, lv int
+			if n, _ := fmt.Sscanf(string(trimmed), "%d %d obj\n%d\nendobj", &ln, &lg, &lv); n != 3 || lv != len(body) {
+				panic(fmt.Sprintf("his: unexpected bytes after a stream: %q", truncate(string(trimmed))))
+			}
+			ls := end + (len(rest) - len(trimmed))
+			le := ls + len(fmt.Sprintf("%d %d obj\n%d\nendobj", ln, lg, lv))
+			if !bytes.Contains(data[before:before+t], []byte(fmt.Sprintf("/Length %d %d R", ln, lg))) {
+				panic("his: the object after the stream is not its /Length")
+			}
+			doc.objs = append(doc.objs, hisWritten{ref: pdf.NewReference(uint32(ln), uint16(lg)), start: ls, end: le, val: fmt.Sprintf("i%d;", lv), needs: -1})
+			if hisBodyNeedsLength(body) {
+				doc.objs[len(doc.objs)-2].needs = len(doc.objs) - 1
+			}
+		}
 	}
+	putPlain := func(i int) error {
+		ref := w.Alloc()
+		if r.P(1, 5) {
+			ref = pdf.NewReference(ref.Number(), uint16(1+r.Intn(3)))
+		}
+		before := sink.Len()
+		var o pdf.Object
+		if nLong >= 0 && r.P(1, 3) {
+			// keyword text in the middle of a line of a string
+			o = pdf.Dict{"Note": pdf.String(Pick(r, []string{"see 901 0 obj and endobj", "xref trailer startxref", "x endstream endobj y", "a 902 0 obj endobj b"}))}
+		} else {
+			o = hisCleanObj(genObj(r, 1+r.Intn(3), false))
+			if _, isReal := o.(pdf.Real); isReal {
+				o = pdf.Integer(i)
+			}
+			o = hisDropReals(o)
+		}
+		if err := w.Put(ref, o); err != nil {
+			return err
+		}
+		addPlain(ref, before, wireNorm(normObj(o)))
+		return nil
+	}
+	putStream := func(i int, body []byte) error {
+		ref := w.Alloc()
+		if r.P(1, 5) {
+			ref = pdf.NewReference(ref.Number(), uint16(1+r.Intn(3)))
+		}
+		before := sink.Len()
+		dict := pdf.Dict{"K": pdf.Integer(i)}
+		if r.Bool() {
+			dict["Type"] = pdf.Name(Pick(r, []string{"XObject", "Foo", "Metadata"}))
+		}
+		ws, err := w.OpenStream(ref, dict)
+		if err != nil {
+			return err
+		}
+		// write in pieces so that the buffering strategies of streamWriter are exercised
+		for rest := body; len(rest) > 0; {
+			k := 1 + r.Intn(len(rest))
+			if _, err := ws.Write(rest[:k]); err != nil {
+				return err
+			}
+			rest = rest[k:]
+		}
+		if err := ws.Close(); err != nil {
+			return err
+		}
+		want := pdf.Dict{}
+		for k, val := range dict {
+			want[k] = val
+		}
+		delete(want, "Length")
+		addStream(ref, before, "S"+wireNorm(want)+"#"+hexWire(body), body)
+		return nil
+	}
+
 	pagesRef := w.Alloc()
 	before := sink.Len()
 	pages := pdf.Dict{"Type": pdf.Name("Pages"), "Kids": pdf.Array{}, "Count": pdf.Integer(0)}
 	if err := w.Put(pagesRef, pages); err != nil {
 		return nil, err
 	}
-	record(pagesRef, before, wireNorm(pages))
+	addPlain(pagesRef, before, wireNorm(pages))
 	w.GetMeta().Catalog.Pages = pagesRef
-	for i := 0; i < nObj; i++ {
-		ref := w.Alloc()
-		if r.P(1, 5) {
-			ref = pdf.NewReference(ref.Number(), uint16(1+r.Intn(3)))
+
+	if nLong < 0 {
+		nObj := 2 + r.Intn(6)
+		if small {
+			nObj = 1 + r.Intn(3)
 		}
-		before := sink.Len()
-		if r.P(1, 3) {
-			body := hisStreamBody(r)
-			dict := pdf.Dict{"K": pdf.Integer(i)}
-			if r.Bool() {
-				dict["Type"] = pdf.Name(Pick(r, []string{"XObject", "Foo", "Metadata"}))
-			}
-			ws, err := w.OpenStream(ref, dict)
-			if err != nil {
-				return nil, err
-			}
-			// write in pieces so that the buffering strategies of streamWriter are exercised
-			for rest := body; len(rest) > 0; {
-				k := 1 + r.Intn(len(rest))
-				if _, err := ws.Write(rest[:k]); err != nil {
+		for i := 0; i < nObj; i++ {
+			if r.P(1, 3) {
+				if err := putStream(i, hisStreamBody(r)); err != nil {
 					return nil, err
 				}
-				rest = rest[k:]
-			}
-			if err := ws.Close(); err != nil {
+			} else if err := putPlain(i); err != nil {
 				return nil, err
 			}
-			want := pdf.Dict{}
-			for k, val := range dict {
-				want[k] = val
+		}
+	} else {
+		// which of the long streams need their /Length: always the last, some of the others
+		for i := 0; i < nLong; i++ {
+			for k := r.Intn(3); k > 0 && nLong < 25; k-- {
+				if r.Bool() {
+					if err := putPlain(100 + i); err != nil {
+						return nil, err
+					}
+				} else {
+					body := hisFillBody(r, r.Intn(200))
+					if r.Bool() {
+						body = hisEmbed(r, body, 1+r.Intn(2))
+					}
+					if err := putStream(200+i, body); err != nil {
+						return nil, err
+					}
+				}
 			}
-			delete(want, "Length")
-			record(ref, before, "S"+wireNorm(want)+"#"+hexWire(body))
-			continue
+			body := hisFillBody(r, 1024+r.Intn(40))
+			level := r.Intn(3)
+			if i == nLong-1 || (nLong >= 10 && i == 9) || (nLong >= 11 && i == 10) {
+				level = 2
+			}
+			if level > 0 {
+				body = hisEmbed(r, body, level)
+			}
+			if err := putStream(i, body); err != nil {
+				return nil, err
+			}
 		}
-		o := hisCleanObj(genObj(r, 1+r.Intn(3), false))
-		if _, isReal := o.(pdf.Real); isReal {
-			o = pdf.Integer(i)
+		if r.Bool() {
+			if err := putPlain(999); err != nil {
+				return nil, err
+			}
 		}
-		o = hisDropReals(o)
-		if err := w.Put(ref, o); err != nil {
-			return nil, err
-		}
-		record(ref, before, wireNorm(normObj(o)))
 	}
+	beforeClose := sink.Len()
 	if err := w.Close(); err != nil {
 		return nil, err
 	}
 	data := sink.Bytes()
 	doc.bytes = append([]byte(nil), data...)
-	// all objects (also the /Length objects of long streams and what Close writes: catalog,
-	// info, xref stream) are located independently by their line-initial headers; generated
-	// strings, names and stream bodies never contain "obj", so the first "endobj" after a
-	// header is the end of that object
-	pos := 0
+	// what Close writes (catalog, info, xref stream) contains no generated text: these objects
+	// are located independently by their line-initial headers
+	pos := beforeClose
 	for {
 		i := hisNextHeader(data[pos:])
 		if i < 0 {
@@ -227,16 +462,16 @@ func hisWriteDoc(r *Rand, small bool) (doc *hisDoc, err error) {
 		var num, gen int
 		fmt.Sscanf(string(data[abs:]), "%d %d obj", &num, &gen)
 		e := bytes.Index(data[abs:], []byte("endobj"))
+		isX := false
+		if bytes.Contains(data[abs:abs+e], []byte("/XRef")) {
+			isX = true
+			e = bytes.LastIndex(data[abs:], []byte("endobj")) // its compressed data could contain the word
+		}
 		if e < 0 {
 			break
 		}
-		isX := bytes.Contains(data[abs:abs+e], []byte("/XRef"))
-		doc.objs = append(doc.objs, hisWritten{ref: pdf.NewReference(uint32(num), uint16(gen)), start: abs, end: abs + e + 6, val: known[abs], isXRef: isX})
-		delete(known, abs)
+		doc.objs = append(doc.objs, hisWritten{ref: pdf.NewReference(uint32(num), uint16(gen)), start: abs, end: abs + e + 6, isXRef: isX, needs: -1})
 		pos = abs + e + 6
-	}
-	if len(known) != 0 {
-		panic("his: a recorded object was not found again")
 	}
 	// the cross-reference data and the startxref value
 	sx := bytes.LastIndex(data, []byte("startxref\n"))
@@ -350,7 +585,12 @@ func hisScanOracle(doc *hisDoc, data []byte, intact int, skipXRefObj bool, tryRe
 func hisScanOracle2(doc *hisDoc, data []byte, intact int, skipXRefObj bool, tryReader bool) (line, failKey, failDesc, readerNote string) {
 	line, fi, err := hisScanLine(data)
 	var complete []hisWritten
+	undecidable := map[int]bool{} // offsets of streams that are cut off from the /Length they need
 	for _, o := range doc.objs {
+		if o.needs >= 0 && doc.objs[o.needs].end > intact {
+			undecidable[o.start] = true
+			continue
+		}
 		if o.end <= intact && !(skipXRefObj && o.isXRef) {
 			complete = append(complete, o)
 		}
@@ -397,11 +637,14 @@ func hisScanOracle2(doc *hisDoc, data []byte, intact int, skipXRefObj bool, tryR
 	}
 	for at, fo := range listed {
 		w, ok := trueAt[at]
-		if fo.Broken {
+		if fo.Broken || undecidable[at] {
 			continue
 		}
 		if !ok {
 			return line, "scan-spurious-object", fmt.Sprintf("an unbroken object %v is listed at %d where none was written", fo.Reference, at), ""
+		}
+		if w.end > intact && w.nasty {
+			continue
 		}
 		if w.end > intact && !(skipXRefObj && w.isXRef) {
 			return line, "scan-incomplete-not-broken", fmt.Sprintf("object %v at %d is cut off (endobj ends at %d > %d) but not marked broken", w.ref, at, w.end, intact), ""
@@ -471,7 +714,11 @@ func hisDamage(input string) (doc *hisDoc, data []byte, intact int, skipX bool, 
 		return nil, nil, 0, false, false, fmt.Errorf("bad replay input")
 	}
 	seed, _ := strconv.ParseUint(f[0], 10, 64)
-	doc, err = hisWriteDoc(&Rand{s: seed}, f[1] == "1")
+	kind := f[1]
+	if kind == "0" || kind == "1" {
+		kind = "r" + kind
+	}
+	doc, err = hisWriteDoc(&Rand{s: seed}, kind)
 	if err != nil {
 		return nil, nil, 0, false, false, err
 	}
@@ -504,38 +751,76 @@ func replayC20(input string) (bool, string) {
 	return true, "scan result: " + truncate(line)
 }
 
+// hisCutSet: the truncation offsets tried for a document.  all = every offset; otherwise
+// every object boundary (start and end of each object) +-2 bytes, the ends of the file, and
+// nSample interior offsets.
+func hisCutSet(r *Rand, doc *hisDoc, all bool, nSample int) []int {
+	n := len(doc.bytes)
+	if all {
+		cuts := make([]int, n+1)
+		for i := range cuts {
+			cuts[i] = i
+		}
+		return cuts
+	}
+	seen := map[int]bool{}
+	var cuts []int
+	add := func(t int) {
+		if t >= 0 && t <= n && !seen[t] {
+			seen[t] = true
+			cuts = append(cuts, t)
+		}
+	}
+	for _, o := range doc.objs {
+		for d := -2; d <= 2; d++ {
+			add(o.start + d)
+			add(o.end + d)
+		}
+	}
+	for d := 0; d <= 2; d++ {
+		add(d)
+		add(n - d)
+	}
+	for i := 0; i < nSample; i++ {
+		add(r.Intn(n + 1))
+	}
+	sort.Ints(cuts)
+	return cuts
+}
+
 func runC20(c *Ctx) {
 	r := c.R
-	nDocs := 24
-	modelDocs := 6 // documents whose every cut is also sent to the model
-	if c.Thorough {
-		nDocs = 300
-		modelDocs = 30
-	}
-	for di := 0; di < nDocs; di++ {
-		seed := r.U64()
-		small := di%2 == 0
-		smallTag := "0"
-		if small {
-			smallTag = "1"
-		}
-		doc, err := hisWriteDoc(&Rand{s: seed}, small)
+
+	// runDoc: one document, its cuts and its xref overwrites
+	runDoc := func(kind string, seed uint64, allCuts bool, nSample int, owStep int, emitCuts int) {
+		doc, err := hisWriteDoc(&Rand{s: seed}, kind)
 		if err != nil {
-			c.Violate("scan", "writer-fails", "the Writer fails: "+err.Error(), fmt.Sprintf("%d %s cut 0", seed, smallTag))
-			continue
+			c.Violate("scan", "writer-fails", "the Writer fails: "+err.Error(), fmt.Sprintf("%d %s cut 0", seed, kind))
+			return
 		}
-		c.Stat(fmt.Sprintf("doc_objects_%02d", len(doc.objs)))
+		c.Stat("doc_kind_" + kind)
+		c.Stat(fmt.Sprintf("doc_objects_%03d", len(doc.objs)))
 		c.StatN("doc_bytes", len(doc.bytes))
+		nNeeds := 0
+		for _, o := range doc.objs {
+			if o.needs >= 0 {
+				nNeeds++
+			}
+		}
+		c.StatN("streams_delimited_only_by_indirect_length", nNeeds)
+		c.StatN("indirect_length_objects", bytes.Count(doc.bytes, []byte(" 0 R>>\nstream"))+bytes.Count(doc.bytes, []byte(" 0 R\n>>\nstream")))
 		if bytes.HasPrefix(doc.bytes[doc.xrefLo:], []byte("xref")) {
 			c.Stat("doc_xref_table")
 		} else {
 			c.Stat("doc_xref_stream")
 		}
-		if di < 2 {
-			c.Sample(fmt.Sprintf("document %d bytes, %d objects: %q", len(doc.bytes), len(doc.objs), truncate(string(doc.bytes))))
+		cr := &Rand{s: seed ^ 0x5bd1e995}
+		cuts := hisCutSet(cr, doc, allCuts, nSample)
+		emitEvery := 1
+		if emitCuts > 0 && len(cuts) > emitCuts {
+			emitEvery = (len(cuts) + emitCuts - 1) / emitCuts
 		}
-		// every truncation offset
-		for t := 0; t <= len(doc.bytes); t++ {
+		for ci, t := range cuts {
 			data := doc.bytes[:t]
 			line, key, desc := hisScanOracle(doc, data, t, false, false)
 			nComplete := 0
@@ -544,21 +829,21 @@ func runC20(c *Ctx) {
 					nComplete++
 				}
 			}
-			c.Case(fmt.Sprintf("%d cut %d", seed, t), nComplete > 0)
+			c.Case(fmt.Sprintf("%d %s cut %d", seed, kind, t), nComplete > 0)
 			if key != "" {
-				c.Violate("scan", key, desc, fmt.Sprintf("%d %s cut %d", seed, smallTag, t))
+				c.Violate("scan", key, desc, fmt.Sprintf("%d %s cut %d", seed, kind, t))
 			}
-			if di < modelDocs {
+			if emitCuts > 0 && ci%emitEvery == 0 {
 				c.Emit("HIS scan "+hexWire(data), line)
 			}
 		}
-		c.StatN("cuts", len(doc.bytes)+1)
-		// xref damage: every single byte of the cross-reference data and of the startxref value,
-		// and the whole ranges, overwritten with each garbage byte
+		c.StatN("cuts", len(cuts))
+		// xref damage: single bytes of the cross-reference data and of the startxref value (every
+		// owStep-th), and the whole ranges, overwritten with each garbage byte
 		garbage := []byte{'X', '0', ' ', '\n', 0xff}
 		type span struct{ lo, hi int }
 		var spans []span
-		for i := doc.xrefLo; i < doc.xrefHi; i++ {
+		for i := doc.xrefLo; i < doc.xrefHi; i += owStep {
 			spans = append(spans, span{i, i + 1})
 		}
 		for i := doc.sxLo; i < doc.sxHi; i++ {
@@ -566,7 +851,10 @@ func runC20(c *Ctx) {
 		}
 		spans = append(spans, span{doc.xrefLo, doc.xrefHi}, span{doc.sxLo, doc.sxHi}, span{doc.xrefLo, doc.xrefLo + 4}, span{doc.sxLo - 10, doc.sxLo - 1})
 		for si, sp := range spans {
-			for _, g := range garbage {
+			for gi, g := range garbage {
+				if owStep > 1 && sp.hi-sp.lo == 1 && gi != si%len(garbage) {
+					continue // sampled: one garbage byte per position
+				}
 				data := append([]byte(nil), doc.bytes...)
 				same := true
 				for i := sp.lo; i < sp.hi; i++ {
@@ -580,15 +868,66 @@ func runC20(c *Ctx) {
 				}
 				line, key, desc, note := hisScanOracle2(doc, data, len(data), true, true)
 				c.Stat("makereader_after_xref_damage_" + note)
-				c.Case(fmt.Sprintf("%d ow %d %d %d", seed, sp.lo, sp.hi, g), true)
+				c.Case(fmt.Sprintf("%d %s ow %d %d %d", seed, kind, sp.lo, sp.hi, g), true)
 				if key != "" {
-					c.Violate("scan", key, desc, fmt.Sprintf("%d %s ow %d %d %d", seed, smallTag, sp.lo, sp.hi, g))
+					c.Violate("scan", key, desc, fmt.Sprintf("%d %s ow %d %d %d", seed, kind, sp.lo, sp.hi, g))
 				}
-				if di < modelDocs && (si%7 == 0 || sp.hi-sp.lo > 1) {
+				if emitCuts > 0 && (si%7 == 0 || sp.hi-sp.lo > 1) && len(doc.bytes) < 16000 {
 					c.Emit("HIS scan "+hexWire(data), line)
 				}
 				c.Stat("xref_overwrites")
 			}
+		}
+	}
+
+	// 1. random small documents: every cut, every single-byte overwrite
+	nDocs := 18
+	modelDocs := 5 // documents whose every cut is also sent to the model
+	if c.Thorough {
+		nDocs = 200
+		modelDocs = 20
+	}
+	for di := 0; di < nDocs; di++ {
+		seed := r.U64()
+		kind := "r0"
+		if di%2 == 0 {
+			kind = "r1"
+		}
+		if di < 2 {
+			if doc, err := hisWriteDoc(&Rand{s: seed}, kind); err == nil {
+				c.Sample(fmt.Sprintf("document %d bytes, %d objects: %q", len(doc.bytes), len(doc.objs), truncate(string(doc.bytes))))
+			}
+		}
+		emit := 0
+		if di < modelDocs {
+			emit = 1 << 30
+		}
+		runDoc(kind, seed, true, 0, 1, emit)
+	}
+
+	// 2. documents with many streams whose /Length is an indirect object written behind them
+	// (1, 9, 10, 11, 25, 40 of them; on a seekable sink the same bodies get a direct /Length),
+	// mixed with short streams and plain objects, bodies with embedded keywords; at least the last
+	// long stream contains EOL+endstream.  Cuts at every object boundary +-2 and sampled interior
+	// offsets (every offset in thorough for the documents below 16 kB).
+	reps := 2
+	if c.Thorough {
+		reps = 6
+	}
+	for rep := 0; rep < reps; rep++ {
+		for _, kind := range hisDocKinds(c.Thorough) {
+			seed := r.U64()
+			big := kind == "i40" || kind == "i40s" || kind == "i25"
+			nSample, owStep, emit := 150, 17, 12
+			all := false
+			if big {
+				nSample, emit = 60, 0
+			}
+			if c.Thorough {
+				nSample, owStep = 600, 5
+				all = !big && rep < 2
+			}
+			runDoc(kind, seed, all, nSample, owStep, emit)
 		}
 	}
 	c.rep.Exhaustive = true
